@@ -1631,3 +1631,6 @@ def replay(ctx, data):
     except Exception as e:
         print("model : not available (%r)" % (e,))
     return d is None
+
+
+DRIVER_OPS = ["cache"]   # per-area driver executable(s) this check talks to (built before any worker is forked)
